@@ -10,6 +10,8 @@ Sub-checks
   fock_mzgate          MZgate special cases (dagger, phi_in = 0) native on fock vs refsim  (finding F3)
   bosonic_vs_fock      non-Gaussian preparations (Fock, cat of any parity/representation, GKP) in any mode order, interleaved
                        with Gaussian gates: bosonic vs fock
+  postselected_homodyne  MeasureHomodyne(phi, select of either sign) on one mode of an entangled Gaussian state, optional further
+                       gates: gaussian, bosonic and fock (pure / mixed) vs the conditional state of refsim
 
 Input classes added by the generator audit (all sub-checks unless noted): registers that lose (Del) and gain (New) modes in
 the middle of the program, so that the used modes are not a contiguous prefix and the simulators have to re-map indices;
